@@ -142,10 +142,15 @@ def default : FilterImpl
     ret (if empty then d else v)
   | _ => badArgs
 
-/-- `values.Length` -/
+/-- `Range.Len` (after the D6 repair): `e - b + 1`, 0 when `e < b`, saturating at the largest `int` -/
+def rangeLen (a b : Int) : Int :=
+  if b < a then 0 else if b - a ≥ maxInt64 then maxInt64 else b - a + 1
+
+/-- `values.Length` (after `fixes/size-of-range`: a range has the length of its items) -/
 def size : FilterImpl
   | [.val v] =>
     match v.toLiquid with
+    | .range a b => ret (.int .int (rangeLen a b))
     | .slice _ xs => ret (.int .int xs.length)
     | .array _ xs => ret (.int .int xs.length)
     | .bytes s => ret (.int .int s.length)
